@@ -27,6 +27,10 @@ class ContractViolation(Exception):
         self.key, self.kind, self.clause, self.detail = key, kind, clause, detail
 
 
+class ShapeMismatch(Exception):
+    """the call's record argument does not have the key set this (aliased) contract is about"""
+
+
 class PreconditionFailed(Exception):
     def __init__(self, key, clause):
         super().__init__(f"{key}: requires {clause}")
@@ -158,6 +162,20 @@ def check_call(key, fn, args, kwargs, strict_pre=True):
 
             call_args[n] = wrapped
     env["trace"] = trace
+    for n_, k_ in c.params.items():
+        # a record kind is a static precondition on the key set (one aliased contract per shape)
+        if k_.startswith("dict{") and n_ in env:
+            want, depth_, cur_ = set(), 0, ""
+            for ch in k_[5:-1] + ",":
+                depth_ += ch in "[{("
+                depth_ -= ch in "]})"
+                if ch == "," and depth_ == 0:
+                    want.add(cur_.split(":", 1)[0].strip())
+                    cur_ = ""
+                else:
+                    cur_ += ch
+            if not isinstance(env[n_], dict) or set(env[n_].keys()) != want:
+                raise ShapeMismatch(key)
     for r in c.requires:
         code, _ = compile_clause(r)
         if not ev(code, env):
@@ -238,6 +256,9 @@ def install(keys, on_violation=None):
                 CHECKED[key] = CHECKED.get(key, 0) + 1
                 try:
                     return check_call(key, fn, a, kw)
+                except ShapeMismatch:
+                    CHECKED[key] = CHECKED.get(key, 0) - 1
+                    return fn(*a, **kw)
                 except PreconditionFailed as p:
                     if on_violation:
                         on_violation(ContractViolation(key, "callee-precondition", p.clause))
